@@ -208,3 +208,38 @@ func init() {
 		return Bound{V: Val{e.vc.get(e.state, comp), ci.sort}, T: t}, nil
 	}
 }
+
+// initLastCalls registers the lastcall ghosts of the root contract before execution, so that a condition evaluated
+// before the first such call sees an unconstrained value (not an evaluation error).
+func (f *Frame) initLastCalls() {
+	rc := f.rootContract()
+	if rc == nil || rc.Key == "" {
+		return
+	}
+	for _, b := range f.fn.Blocks {
+		for _, in := range b.Instrs {
+			var cc *ssa.CallCommon
+			switch x := in.(type) {
+			case *ssa.Call:
+				cc = &x.Call
+			case *ssa.Defer:
+				cc = &x.Call
+			}
+			if cc == nil {
+				continue
+			}
+			name := shortCallee(cc)
+			if !contractMentionsLastCall(rc, name) {
+				continue
+			}
+			sig := cc.Signature()
+			if sig.Results().Len() == 0 {
+				continue
+			}
+			comp := lastCallComp(name)
+			if _, ok := f.vc.comps[comp]; !ok {
+				f.vc.regComp(comp, f.vc.sortOf(sig.Results().At(0).Type()))
+			}
+		}
+	}
+}
